@@ -3,7 +3,9 @@ package core
 import (
 	"fmt"
 	"os"
+	"runtime"
 	"strings"
+	"time"
 
 	"github.com/ryogrid/SamehadaDB/lib/verifshim/vrand"
 	"github.com/ryogrid/SamehadaDB/lib/verifshim/vsched"
@@ -207,6 +209,16 @@ func exploreSched(c *Ctx, sc *Scenario, split bool) {
 
 	run := func(w workItem, count bool) (*ExecInfo, bool) {
 		x, v, outcome, div := RunSchedule(sc, w.prefix)
+		// goroutines that the code under test leaves behind (or that an execution could not unwind) add up
+		// over millions of executions; the race detector dies at 8128 live goroutines. Stop this worker's
+		// exploration cleanly (not exhaustive) well before that.
+		if n := runtime.NumGoroutine(); n > 5000 {
+			res.Exhaustive = false
+			res.Note("%s: %d goroutines alive in the worker process: exploration stopped early (the race detector supports 8128)", sc.Name, n)
+			c.Deadline = time.Now()
+		} else if float64(n) > asFloat(res.Extra["max_goroutines_in_worker"]) {
+			res.Extra["max_goroutines_in_worker"] = float64(n)
+		}
 		if div != "" {
 			if sc.TolerateDivergence {
 				res.Exhaustive = false
@@ -323,4 +335,10 @@ func compress(ch []int) string {
 		i = j
 	}
 	return strings.TrimSpace(sb.String())
+}
+
+
+func asFloat(v any) float64 {
+	f, _ := v.(float64)
+	return f
 }
